@@ -177,10 +177,12 @@ impl ProjectionPushdown {
                 self.extract_columns_from_expr(low, required);
                 self.extract_columns_from_expr(high, required);
             }
-            Expr::InSubquery { expr, .. } => {
+            Expr::InSubquery { expr, subquery, .. } => {
                 // Extract columns from the left side of the IN expression
                 self.extract_columns_from_expr(expr, required);
-                // Don't recurse into the subquery - it has its own scope
+                // The subquery has its own scope, but a correlated one reads
+                // outer columns that must survive pruning (same as EXISTS)
+                self.extract_outer_columns_from_subquery(subquery, required);
             }
             Expr::Exists { subquery, .. } => {
                 // For EXISTS, we need to extract outer column references from the subquery
